@@ -128,12 +128,15 @@ func (f Float) MarshalJSON() ([]byte, error) {
 	num := []byte{}
 	num = strconv.AppendFloat(num, float64(f), 'E', -1, 64)
 
-	// When decimal place is missing, add it. This only happens
-	// when the number is 0.
-	if num[1] != '.' {
-		num = append(num[0:3], num[1:]...)
-		num[1] = '.'
-		num[2] = '0'
+	// When decimal place is missing, add it after the first digit,
+	// taking into account a possible leading minus sign.
+	d := 1
+	if num[0] == '-' {
+		d = 2
+	}
+	if num[d] != '.' {
+		rest := append([]byte(".0"), num[d:]...)
+		num = append(num[:d], rest...)
 	}
 
 	// Split into two parts
